@@ -266,11 +266,30 @@ func (c *Ctx) anchors() *Anchors {
 	if a.reflectRes == nil {
 		miss("reflection resolver")
 	} else {
-		for _, cal := range staticCallees(a.reflectRes) {
+		isReflArgs := func(cal *ssa.Function) bool {
 			res := cal.Signature.Results()
 			if res.Len() >= 1 {
 				if s, ok := res.At(0).Type().Underlying().(*types.Slice); ok {
 					if n, ok := s.Elem().(*types.Named); ok && n.Obj().Name() == "Value" && n.Obj().Pkg().Path() == "reflect" {
+						return true
+					}
+				}
+			}
+			return false
+		}
+		for _, cal := range staticCallees(a.reflectRes) {
+			if isReflArgs(cal) {
+				a.reflArgs = cal
+			}
+		}
+		if a.reflArgs == nil {
+			// the reflected call taken out into a helper of the reflection resolver: one level further down
+			for _, mid := range staticCallees(a.reflectRes) {
+				if !c.inPkg(mid) || len(mid.Blocks) == 0 {
+					continue
+				}
+				for _, cal := range staticCallees(mid) {
+					if c.inPkg(cal) && isReflArgs(cal) {
 						a.reflArgs = cal
 					}
 				}
